@@ -875,6 +875,22 @@ def _messages(repo, rep):
     tree = ast.parse(textwrap.dedent(fac.node[1]["source"]))
     targets.append(("emit_convert", tree.body, "target"))
     for name, body, tgt in targets:
+        # exact numbers take the short way (str(), never offered to the
+        # translation function): the test is 'the type is int OR is float'
+        tests = [n_.test for st_ in body for n_ in ast.walk(st_)
+                 if isinstance(n_, ast.If)
+                 and {"int", "float"} <= {x.id for x in ast.walk(n_.test)
+                                          if isinstance(x, ast.Name)}]
+        okn = bool(tests) and all(
+            isinstance(t_, ast.BoolOp) and isinstance(t_.op, ast.Or)
+            and all(isinstance(v_, ast.Compare) and len(v_.ops) == 1
+                    and isinstance(v_.ops[0], (ast.Is, ast.Eq))
+                    for v_ in t_.values) for t_ in tests)
+        rep.check(okn, "R10.5", COMP + name, "%s: a value whose type is int "
+                  "or float is converted with str() at once (a number is no "
+                  "message: the translation function is not called for it)"
+                  % name, construct="number-fast-path:" + name,
+                  detail=str([src(t_) for t_ in tests]))
         paths = P.enum_paths(body)
         rep.count("paths", len(paths))
         n = 0
@@ -1117,7 +1133,163 @@ def translate_skips_none(repo, rep, rule="R10.6"):
               detail="%d translate call(s)" % len(calls))
 
 
+def _program_flags(repo, rep):
+    """Value-level decisions of the template program that feed translation:
+    the translate flag of content / replacement / fallback is 'the element
+    carries an EMPTY i18n:translate'; text below an i18n:translate element is
+    not translated piece by piece, an i18n:name block is a message of its
+    own again, everything else inherits; an interpolated attribute value is
+    implicitly translated unless it has an explicit id or is boolean; the
+    implicit message id of a text run is the text with every white-space run
+    collapsed and the outer white space cut off (a single character is a
+    text)."""
+    from .. import rx as _rx
+    ve = repo.func("chameleon.zpt.program.MacroProgram.visit_element")
+    cmps = [n for n in ast.walk(ve.node) if isinstance(n, ast.Compare)
+            and len(n.ops) == 1 and "(I18N, 'translate')" in src(n.left)
+            and isinstance(n.comparators[0], ast.Constant)
+            and n.comparators[0].value == ""]
+    rep.check(len(cmps) >= 2 and all(isinstance(c.ops[0], ast.Eq)
+                                     for c in cmps), "R10.1", ve.qualname,
+              "the translate flag of a content / replacement / on-error "
+              "value is: i18n:translate is present and EMPTY (%d sites)"
+              % len(cmps), construct="translate-flag-eq", where=L.where(ve),
+              detail=str([src(c) for c in cmps]))
+    # the IMPLICIT decision
+    ifs = [n for n in ast.walk(ve.node) if isinstance(n, ast.If)
+           and any(isinstance(a_, ast.Assign) and
+                   src(a_.targets[0]) == "IMPLICIT" for a_ in n.body)]
+    top = [n for n in ifs if not any(n in ast.walk(o) and n is not o
+                                     for o in ifs)]
+    table = {}
+    if len(top) == 1:
+        for path in P.enum_paths([top[0]]):
+            conds = [(src(e[1]), e[2]) for e in path if e[0] == "cond"]
+            val = [e[2] for e in path if e[0] == "assign"
+                   and e[1] == "IMPLICIT"]
+            if val:
+                key = (L.cond_holds(conds, "(I18N, 'translate') in ns", True),
+                       L.cond_holds(conds, "(I18N, 'name') in ns", True))
+                table[key] = src(val[-1])
+    want = {(True, False): "False", (False, True): "True",
+            (False, False): "self._implicit_translation[-1]"}
+    rep.check(table == want, "R10.1", ve.qualname, "implicit translation "
+              "of text: off below i18n:translate, on again inside an "
+              "i18n:name block, inherited otherwise",
+              construct="implicit-table", where=L.where(ve),
+              detail=str(sorted(table.items())))
+    ca = repo.func("chameleon.zpt.program.MacroProgram."
+                   "_create_attributes_nodes")
+    tr = [a_ for a_ in ast.walk(ca.node) if isinstance(a_, ast.Assign)
+          and src(a_.targets[0]) == "translation"]
+    okt = bool(tr)
+    for a_ in tr:
+        conj = {src(x).replace(" ", "") for x in (
+            a_.value.values if isinstance(a_.value, ast.BoolOp) and
+            isinstance(a_.value.op, ast.And) else [a_.value])}
+        if not {"implicit_i18n", "msgidismissing", "notboolean"} <= conj:
+            okt = False
+    rep.check(okt, "R10.6", ca.qualname, "an interpolated attribute value "
+              "is translated implicitly when the attribute is listed for "
+              "implicit translation, has no explicit id and is not boolean",
+              construct="attr-interp-translation", where=L.where(ca),
+              detail=str([src(a_.value) for a_ in tr]))
+    vt = repo.func("chameleon.zpt.program.MacroProgram.visit_text")
+    pats = [(c, c.args[0].value) for c in ast.walk(vt.node)
+            if isinstance(c, ast.Call) and src(c.func) in (
+                "re.search", "re.sub", "re.match")
+            and c.args and isinstance(c.args[0], ast.Constant)
+            and isinstance(c.args[0].value, str)]
+    okp = len(pats) >= 2
+    pdetail = []
+    for c, pat in pats:
+        probs, counts = L.regex_shape(pat, 16)
+        if probs:
+            okp = False
+            pdetail += [t for k, t in probs]
+        if src(c.func) == "re.search":
+            w = L.group_width(pat, 16, 2)
+            if w is None or w[0] != 1:
+                okp = False
+                pdetail.append("the text group is at least %s characters"
+                               % (w,))
+        if src(c.func) == "re.sub":
+            items = list(_rx.parse(pat))
+            if not (len(items) == 1 and items[0][0] is _rx.C.MAX_REPEAT
+                    and items[0][1][0] == 1):
+                okp = False
+                pdetail.append("the collapsing pattern is %r" % pat)
+    rep.check(okp, "R10.6", vt.qualname, "the implicit message id of a "
+              "text run: white space is any white space, a one-character "
+              "text is a text", construct="implicit-msgid-patterns",
+              where=L.where(vt), detail="; ".join(pdetail))
+
+
+def _attribute_names(repo, rep):
+    """The names listed in i18n:attributes are looked up by exact name
+    afterwards (I18N_ATTRIBUTES.get(name)): the statement parser keeps them
+    as written -- it lowers them only when told that the document is not
+    XML, and that is not the default."""
+    pa = repo.func("chameleon.i18n.parse_attributes")
+    a = pa.node.args
+    params = [x.arg for x in a.args]
+    dflt = dict(zip(params[len(params) - len(a.defaults):], a.defaults))
+    lowers = [n for n in ast.walk(pa.node) if isinstance(n, ast.Call)
+              and isinstance(n.func, ast.Attribute)
+              and n.func.attr in ("lower", "upper", "casefold")]
+    ok = True
+    detail = []
+    for c in lowers:
+        gs = [(src(t), v) for t, v in L.guards_of(c, pa.node)
+              if isinstance(t, ast.expr)]
+        flag = [p_ for p_ in params if any(p_ in g[0] for g in gs)]
+        if not flag:
+            ok = False
+            detail.append("%s is unconditional" % src(c))
+            continue
+        for p_ in flag:
+            if not L.cond_holds(gs, p_, False):
+                ok = False
+                detail.append("%s runs when %s is true" % (src(c), p_))
+            d_ = dflt.get(p_)
+            if not (isinstance(d_, ast.Constant) and d_.value is True):
+                ok = False
+                detail.append("the default of %s is %s" % (
+                    p_, src(d_) if d_ is not None else "missing"))
+    calls = [n for q, f_ in repo.funcs.items() for n in ast.walk(f_.node)
+             if isinstance(n, ast.Call)
+             and src(n.func) == "i18n.parse_attributes"]
+    for c in calls:
+        if len(c.args) > 1 or c.keywords:
+            ok = False
+            detail.append("called with %s" % src(c))
+    rep.check(ok and bool(calls), "R10.6", pa.qualname, "attribute names "
+              "of i18n:attributes are kept as written (case folding only "
+              "for documents declared not to be XML, which no caller does)",
+              construct="attr-names-as-written", where=L.where(pa),
+              detail="; ".join(detail))
+    # the placeholder name of the default translation function: letters,
+    # digits, '-' and '_' after the first letter, matched greedily -- '$name'
+    # without braces is the whole name, not its first letter
+    mod = repo.module("chameleon.i18n")
+    try:
+        nre = repo.fold(mod.assigns["NAME_RE"][-1], mod)
+    except Exception:
+        nre = None
+    from .. import rx as _rx
+    C = _rx.C
+    okg = False
+    if isinstance(nre, str):
+        items = list(_rx.parse(nre))
+        okg = len(items) == 2 and items[1][0] is C.MAX_REPEAT
+    rep.check(okg, "R10.6", "chameleon.i18n.NAME_RE", "the tail of a "
+              "placeholder name is matched greedily", construct="name-greedy",
+              detail=str(nre))
+
+
 def _attributes(repo, rep):
+    _attribute_names(repo, rep)
+    _program_flags(repo, rep)
     f = repo.func("chameleon.zpt.program.MacroProgram."
                   "_create_attributes_nodes")
     text = L.text(f.node)
